@@ -453,11 +453,14 @@ def _alloc_size(repo: Repo, cls: ClassInfo, attr: str) \
                     tg.value, ast.Name) and tg.value.id == "self" and \
                     mangle(cls.name, tg.attr) == mangle(cls.name, attr):
                 v = s.value
+                shape_kw = next((k_.value for k_ in getattr(
+                    v, "keywords", []) if k_.arg == "shape"), None)
                 if isinstance(v, ast.Call) and isinstance(
                         v.func, ast.Attribute) and v.func.attr in (
-                        "empty", "zeros") and v.args:
+                        "empty", "zeros") and (v.args or shape_kw
+                                               is not None):
                     try:
-                        a0 = v.args[0]
+                        a0 = v.args[0] if v.args else shape_kw
                         if isinstance(a0, ast.Tuple):
                             return init, s, tuple(
                                 ev.num(env, x) for x in a0.elts)
